@@ -35,6 +35,10 @@ PROPS = {
     'C06': ('contracts.c06', 'proof',
             'crash-point invariant of write_smtlib_to_file over a ghost '
             'file system; interrupt handlers write nothing'),
+    'C07': ('contracts.c07', 'exploration',
+            'renderers vs reference reader and re-parse, bounded'),
+    'C08': ('contracts.c08', 'exploration',
+            'parser vs reference reader, exhaustive over class strings'),
 }
 
 
